@@ -259,7 +259,7 @@ def run(tier):
         conds = path_conditions(bf, calls[0][0])
         okm = any(cond_true(x) and field_path(x[0])[1][-1:] == ['cold_start'] for x in conds)
         # and nothing else guards it
-        extra = [x for x in conds if not (field_path(x[0])[1][-1:] == ['cold_start'] or (x[0][0] == 'discr' and (is_call(x[0][1], 'Try::branch') or is_call(x[0][1], 'Future::poll'))) or
+        extra = [x for x in conds if not (field_path(x[0])[1][-1:] == ['cold_start'] or (x[0][0] == 'discr' and (is_call(x[0][1], 'Try::branch') or rules.is_poll_term(peel(x[0][1])))) or
                                           is_call(x[0], 'PartialEq>::ne') or is_call(x[0], 'PartialEq>::eq'))]
         okm = okm and not extra
     res.require(okm, 'C14:prepare_modem:cold-start', 'prepare_modem does not run do_cold_start exactly when cold_start is raised', bf.body.path, 'EXACT-GUARD(cold_start <=> do_cold_start)',
